@@ -101,6 +101,42 @@ CLAIMS = {
   note="paramiko is not installed: a stand-in module makes the real ParamikoConnector class importable in one worker; argv compared word "
        "by word (quoting is C01's concern); option order not compared.",
   ref="DESIGN.md section 4 C20"),
+ "C05": dict(
+  text="Theorems C05.check_invariant / check_complete / check_sound / case_spec: ring-buffer invariant (after any data, every ring is "
+       "the last min(2*len, received) bytes of the data received since registration — also after a match, all windows are "
+       "processed), COMPLETENESS (an occurrence of a registered literal or eos-free regex that ends inside the delivered piece makes "
+       "that read raise, whatever precedes/follows it and however it straddles scan windows: window size <= shortest string), "
+       "SOUNDNESS (a raised death exception belongs to a registration whose string occurs in the data since its registration), scoping "
+       "of with_death_string, and for EVERY operation sequence the Spec's monitor accepts the model's trace. The monitor is evaluated "
+       "on the real Channel for generated cases (all read methods, nested registrations, reading continued after a death).",
+  note="death strings non-empty; regex death strings from the modelled subset without anchors and not matching the empty string "
+       "(counterexamples for the excluded shapes are proved in the file).",
+  ref="DESIGN.md section 4 C05"),
+ "C06": dict(
+  text="Theorems C06.op_spec / case_spec (+ read_deadline, send_deadline, rut_exact, no_timeout_op …): for every state and every "
+       "timed operation called at virtual time t0 with timeout T — and for every operation sequence — each transport request carries "
+       "exactly T - (now - t0), TimeoutError is raised exactly at t0 + T and never without a timeout, any other result is returned at "
+       "the moment of the last delivery and no later than t0 + T, read_until_timeout(T) never raises it and ends exactly at t0 + T; "
+       "proved through one generic predicate `Timed` closed under the read_iter step and nesting of deadlines. The Spec is evaluated "
+       "on the real Channel under a patched clock for thousands of arrival schedules (trickles, bursts, arrival exactly at the "
+       "deadline, silence).",
+  note="partial: virtual time (tbot infinitely fast between clock reads, transport honours its timeout); slow-send sleeps are exempt "
+       "from the deadline clauses (the timeout is documented for the read-back only); real select() latency not modelled.",
+  ref="DESIGN.md section 4 C06"),
+ "C08": dict(
+  text="Theorems C08.attached_invariant, fw_prefix, fw_all, fw_literal, fw_at_prompt, detach_clean, detach_regex, "
+       "asciiT_decodeReplace, case_spec_partial: for one attachment at a time and every sequence of reads, R = Fw ++ held-back always; "
+       "Fw = R without suppression; with a literal prompt the held-back bytes are exactly the LONGEST suffix of R that is a prefix of "
+       "the prompt; a read ending at the prompt leaves exactly the output in the stream; detaching empties the hold-back buffer and "
+       "nothing is forwarded afterwards; regex prompts: prefix law and exact output after the exit flush; the ASCII projection of the "
+       "decoded fragments equals that of the bytes for EVERY fragmentation; Spec.C08 holds for every case without nesting and without "
+       "prompt changes under a suppressing attachment. The Spec's monitor is evaluated on the real Channel (text written to attached "
+       "stream objects).",
+  note="partial: three shapes are excluded and listed as known findings (nested attachments with different modes, nested suppressing "
+       "attachments, prompt changed while a suppressing attachment is open) — the unrestricted statement is proved false on "
+       "witnesses that replay on the implementation; text identity beyond the ASCII projection holds only when no fragment boundary "
+       "splits a character.",
+  ref="DESIGN.md section 4 C08"),
 }
 
 REASON_TODO = "check not built yet (work in progress; will be claimed once its Lean model, theorems and correspondence harness exist)"
